@@ -149,6 +149,7 @@ type HarnessSpec struct {
 	Tier       string
 	GlobalsRead  map[string]bool // with CheckGlobals: only variables whose value some non-init function uses are reported
 	CheckGlobals string // package path prefix: package-level variables under it must be unchanged when a path ends (C19: no state in process memory)
+	RerunReal    map[string]bool // summarised functions that concrete re-executions run for real
 	AssertPrefix string // meta-checks: only assertions whose label has this prefix are checked (the wrapped scenario's own are another property's)
 }
 
@@ -248,6 +249,7 @@ type Engine struct {
 	forkSites map[string]int
 	varSign   map[string]sign
 	pcSet     map[string]bool
+	lastProved bool // the last assertExcept call was discharged (unsat / trivially true)
 	roundMemo map[string]*Term // rounding results by operand terms (functional consistency)
 	cur      *frame // innermost frame (diagnostics only)
 }
@@ -731,6 +733,7 @@ func (e *Engine) stat(label string) *AssertStat {
 // assertExcept: c must hold; if finding is an active known finding, assignments
 // satisfying pred are reported as KNOWN-FINDING instead of violations.
 func (e *Engine) assertExcept(c *Term, label, finding string, pred *Term) {
+	e.lastProved = false
 	if e.spec.AssertPrefix != "" && !strings.HasPrefix(label, e.spec.AssertPrefix) {
 		return
 	}
@@ -740,6 +743,7 @@ func (e *Engine) assertExcept(c *Term, label, finding string, pred *Term) {
 	if c.Op == "true" {
 		st.Trivial++
 		e.res.mu.Unlock()
+		e.lastProved = true
 		return
 	}
 	e.res.mu.Unlock()
@@ -761,6 +765,7 @@ func (e *Engine) assertExcept(c *Term, label, finding string, pred *Term) {
 	switch r {
 	case "unsat":
 		st.Unsat++
+		e.lastProved = !active
 	case "sat":
 		st.Sat++
 		// keep at most a few models per label
